@@ -35,7 +35,9 @@ func corner() []pipe.Scenario {
 	}
 	T := []pipe.Type{{Name: "T", Enabled: []string{"g1", "al"}}}
 	U := []pipe.Type{{Name: "U", Alias: "int", Enabled: []string{"al"}}}
-	step := func(k string, s pipe.Step) map[string]pipe.Step { return map[string]pipe.Step{"example.com/m/a " + k: s} }
+	step := func(k string, s pipe.Step) map[string]pipe.Step {
+		return map[string]pipe.Step{"example.com/m/a " + k: s}
+	}
 	var out []pipe.Scenario
 	// ErrIgnore from GenerateType, nothing rendered, previous file present: kept
 	out = append(out, pipe.Scenario{Module: mod(T, prev("g1")), Entry: []string{"./a"}, Base: "zz_generated",
